@@ -275,7 +275,8 @@ def cognitive_jobs(pid, quick, rng):
 def _proto_job(arg):
     name, is_manager, budget, w, seed, n, chunk_mode, dseed = arg
     rng = np.random.RandomState(dseed)
-    clf, X, y = sc.make_clf(seed)
+    d = 1 + dseed % 3          # 1-3 features (code that counts array elements instead of instances shows with d > 1)
+    clf, X, y = sc.make_clf(seed, d)
     if is_manager:
         fac = sc.manager_factories()[name]
         make_obj = lambda: fac(budget, w, seed)
@@ -294,7 +295,7 @@ def _proto_job(arg):
         else:
             make_obj = lambda: fac(budget, seed)
     # the stream: 1-D integer features (duplicates matter for the density windows)
-    Xs = rng.randint(0, 8, size=(n, 1)).astype(float)
+    Xs = rng.randint(0, 8, size=(n, d)).astype(float)
     pat = rng.randint(4)
     if chunk_mode >= 100 or pat == 0:      # (chunk_mode 100 + k: greedy stream in chunks of k instances)
         us = np.ones(n)
@@ -322,10 +323,10 @@ def _proto_job(arg):
     chunks = [Xs[a:b] for a, b in zip(edges[:-1], edges[1:])]
     uchunks = [us[a:b] for a, b in zip(edges[:-1], edges[1:])]
     extra = [[("same", "other")[rng.randint(2)] for _ in range(rng.randint(0, 3))] for _ in chunks]
-    other = (rng.randint(0, 8, size=(3, 1)).astype(float), rng.rand(3))
+    other = (rng.randint(0, 8, size=(3, d)).astype(float), rng.rand(3))
     prologue = bool(dseed % 3 == 0)       # one third of the histories start with an update
     concrete = {"object": name, "is_manager": is_manager, "budget": budget, "w": w, "seed": seed, "n": n,
-                "chunk_sizes": sizes, "data_seed": dseed, "starts_with_update": prologue}
+                "chunk_sizes": sizes, "data_seed": dseed, "starts_with_update": prologue, "n_features": d}
     base = name.split("+")[0]
     return sc.record_pair(make_obj, is_manager, base if not is_manager else name, budget, chunks, uchunks, clf,
                           extra, other, "b%.3f-w%d-seed%d-n%d-c%d-d%d%s" % (budget, w, seed, n, chunk_mode, dseed,
